@@ -261,6 +261,12 @@ enum Tamper {
     ValueWithNonexist,
     /// honest answer of another height
     OtherHeight { delta: i64 },
+    /// a self-consistent forged chain that never touches the committed state: a made-up bank
+    /// store proving (key, forged value) [or, `absent_claim`, the absence of a funded key] to
+    /// a fake bank root R1, a made-up multistore proving bank -> R1 to a fake root R2, then
+    /// `surplus` trailing ops, the first of which carries an existence value equal to R2
+    /// (labelled `ics23:iavl` or `ics23:simple`).  The header keeps the honest app hash.
+    ForgedChain { surplus: usize, iavl: bool, absent_claim: bool, decoy_stores: bool },
 }
 
 fn sites(p: &mut Parts) -> Vec<&mut ExistenceProof> {
@@ -665,6 +671,59 @@ fn apply(t: &Tamper, p: &mut Parts, w: &World, key: &[u8], seed: u64, cfg: &Worl
             p.value = b"1000".to_vec();
             true
         }
+        Tamper::ForgedChain { surplus, iavl, absent_claim, decoy_stores } => {
+            let (value, p0) = if *absent_claim {
+                if target_idx.is_none() {
+                    return false; // forging the absence of an absent key is no forgery
+                }
+                // a made-up store that simply does not contain the key
+                let mut other = key.to_vec();
+                let l = other.len();
+                other[l - 5] ^= 0x40;
+                let mut leaves = vec![IavlLeaf { key: other, value: b"5".to_vec(), version: 3 }];
+                leaves.sort_by(|a, b| a.key.cmp(&b.key));
+                let t = IavlTree::new(leaves);
+                (vec![], (t.root(), commitment_nonexist(t.nonexist(key))))
+            } else {
+                // a balance different from every committed one
+                let forged = b"777777".to_vec();
+                let mut leaves = vec![IavlLeaf { key: key.to_vec(), value: forged.clone(), version: 2 }];
+                if *decoy_stores {
+                    let mut other = key.to_vec();
+                    let l = other.len();
+                    other[l - 5] ^= 0x40;
+                    leaves.push(IavlLeaf { key: other, value: b"12".to_vec(), version: 1 });
+                    leaves.sort_by(|a, b| a.key.cmp(&b.key));
+                }
+                let t = IavlTree::new(leaves);
+                let i = t.index_of(key).unwrap();
+                (forged, (t.root(), commitment_exist(t.exist(i))))
+            };
+            let (r1, p0) = p0;
+            let mut stores = vec![("bank".to_string(), r1.to_vec())];
+            if *decoy_stores {
+                stores.push(("auth".to_string(), Fill::new(seed, 901).bytes(32)));
+                stores.push(("staking".to_string(), Fill::new(seed, 902).bytes(32)));
+            }
+            let ms = MultiStore::new(stores);
+            let r2 = ms.root().to_vec();
+            let mut ops = vec![
+                ("ics23:iavl".to_string(), key.to_vec(), OpData::Proof(p0)),
+                ("ics23:simple".to_string(), b"bank".to_vec(), OpData::Proof(commitment_exist(ms.exist("bank")))),
+            ];
+            for j in 0..*surplus {
+                let e = ExistenceProof {
+                    key: b"ibc".to_vec(),
+                    value: if j == 0 { r2.clone() } else { Fill::new(seed, 910 + j as u64).bytes(32) },
+                    leaf: Some(std_leaf_op(if *iavl { vec![0, 2, 2] } else { vec![0] })),
+                    path: vec![],
+                };
+                ops.push((if *iavl { "ics23:iavl" } else { "ics23:simple" }.to_string(), b"ibc".to_vec(), OpData::Proof(commitment_exist(e))));
+            }
+            p.value = value;
+            p.ops = Some(ops);
+            true
+        }
         Tamper::OtherHeight { delta } => {
             let w2 = world(seed, cfg, HEADER_HEIGHT as i64 - 1 + delta);
             let hp = honest_parts(&w2, key);
@@ -757,6 +816,18 @@ fn catalogue(thorough: bool) -> Vec<Tamper> {
         Tamper::OtherHeight { delta: 1 },
         Tamper::OtherHeight { delta: -1 },
     ]);
+    for surplus in 0..=2 {
+        for iavl in [true, false] {
+            for absent_claim in [false, true] {
+                for decoy_stores in [false, true] {
+                    if surplus == 0 && !iavl {
+                        continue; // no surplus op: the label does not exist
+                    }
+                    t.push(Tamper::ForgedChain { surplus, iavl, absent_claim, decoy_stores });
+                }
+            }
+        }
+    }
     t
 }
 
@@ -1048,7 +1119,7 @@ fn main() {
         &ctx,
         rep,
         Spec {
-            rule: "worlds: bank store (IAVL-shaped, hand-built) of 1..4 (quick) / 1..7 (thorough) accounts x multistore (simple merkle) store sets {bank}, {auth,bank}, {auth,bank,staking}, {acc,bank,mint,staking} (+3 more in thorough) x target = every present account and an absent address in every gap x every applicable tamper of the catalogue (value digits/length/empty/other account's value; op keys; proof keys/values; other account's whole proof with 0/1/2 keys rewritten; per path step: bit flips in prefix/suffix (quick: 6 byte positions x 1 bit; thorough: bytes 0..40 x 8 bits), drop, duplicate, swap, hash op, extra step; leaf prefix bytes/marker/prehash/length/hash/missing; ops swapped/dropped/duplicated/absent/empty; proof wrapped in a batch behind a decoy entry, with/without the genuine entry, plain/compressed; spec names; undecodable/empty proof data; app hash bit flips / bank root / empty; non-zero code; absence forgeries: empty value without proof, with empty ops, with the key's own membership proof, with its neighbours, self as neighbour, dropped/swapped/skipped neighbours, key field, both sides missing, value with non-existence proof; answer of another height).  evaluation = one get_verified_balance call of the real client over the fake node; distinct = (world, target, tamper); non-trivial = tampered",
+            rule: "worlds: bank store (IAVL-shaped, hand-built) of 1..4 (quick) / 1..7 (thorough) accounts x multistore (simple merkle) store sets {bank}, {auth,bank}, {auth,bank,staking}, {acc,bank,mint,staking} (+3 more in thorough) x target = every present account and an absent address in every gap x every applicable tamper of the catalogue (value digits/length/empty/other account's value; op keys; proof keys/values; other account's whole proof with 0/1/2 keys rewritten; per path step: bit flips in prefix/suffix (quick: 6 byte positions x 1 bit; thorough: bytes 0..40 x 8 bits), drop, duplicate, swap, hash op, extra step; leaf prefix bytes/marker/prehash/length/hash/missing; ops swapped/dropped/duplicated/absent/empty; proof wrapped in a batch behind a decoy entry, with/without the genuine entry, plain/compressed; spec names; undecodable/empty proof data; app hash bit flips / bank root / empty; non-zero code; absence forgeries: empty value without proof, with empty ops, with the key's own membership proof, with its neighbours, self as neighbour, dropped/swapped/skipped neighbours, key field, both sides missing, value with non-existence proof; answer of another height; self-consistent forged chains (made-up bank store and multistore proving a forged balance or a forged absence to fake roots) with 0, 1 or 2 surplus trailing ops whose first existence value equals the fake multistore root, labelled iavl / simple, with / without decoy entries).  evaluation = one get_verified_balance call of the real client over the fake node; distinct = (world, target, tamper); non-trivial = tampered",
             assumptions: &[
                 "honest proof chains are built by the harness and checked with ics23::verify_membership / verify_non_membership before use",
                 "the oracle recomputes the hash chain itself (sha256, ICS-23 leaf/inner images) and checks adjacency of non-existence neighbours against the committed store; it enforces leaf/inner domain separation but not the spec's prefix-length bounds",
